@@ -604,3 +604,10 @@ package eval
 //@ func makeMap$1
 //@   props C17
 //@   opaque Collect
+
+// C17: randint. The range handed to the random source must be positive: for
+// machine ints that means high - low must not overflow.
+//@ func withRand
+//@   inline
+//@ func randIntSmallInt
+//@   props C17
